@@ -35,6 +35,8 @@ HARNESSES = {
     'k_lang_frag': {'kind': 'complete', 'domain': 'all 26^3 lower-case three-letter codes + "und" (fragmented mdhd packer)', 'timeout': 300, 'tier': 'quick'},
     'k_send_sync': {'kind': 'complete', 'domain': 'all W: Write + Send / Sync (rustc trait solver)', 'timeout': 300, 'tier': 'quick'},
     'k_aliases': {'kind': 'complete', 'domain': 'all arguments of the builder alias pairs', 'timeout': 300, 'tier': 'quick'},
+    'k_api_ticks_video': {'kind': 'complete', 'domain': 'all f64 bit patterns for pts and dts of the first frame, real Muxer::write_video_with_dts (VP9 keyframe)', 'timeout': 1800, 'tier': 'thorough'},
+    'k_api_ticks_second_frame': {'kind': 'complete', 'domain': 'all f64 bit patterns for the second frame time, real Muxer::write_video', 'timeout': 1800, 'tier': 'thorough'},
     'k_ticks_nearest': {'kind': 'complete', 'domain': 'all finite f64 seconds x >= 0 with x*90000 < 2^53', 'timeout': 900, 'tier': 'thorough'},
     'kb_ticks_monotone': {'kind': 'bounded', 'domain': 'seconds i/1024 for i < 2^30', 'timeout': 900, 'tier': 'thorough'},
     'kb_stats_secs': {'kind': 'bounded', 'domain': 'tick counts below 2^32', 'timeout': 900, 'tier': 'thorough'},
@@ -82,7 +84,7 @@ def make_scratch():
     subprocess.run(['rsync', '-a', '--exclude', 'target', '--exclude', '.git', REPO + '/', d + '/'], check=True)
     for src, hf in ATTACH:
         with open(os.path.join(d, src), 'a') as f:
-            f.write('\n#[cfg(kani)]\n#[path = "%s"]\nmod verif_kani;\n' % os.path.join(KANI_DIR, hf))
+            f.write('\n#[cfg(kani)]\n#[path = "%s"]\npub(crate) mod verif_kani;\n' % os.path.join(KANI_DIR, hf))
     return d
 
 
